@@ -57,6 +57,16 @@ def run(op, a):
         chain, bv, fpow, fmerkle, cur_time = a
         kw = dict(fCheckPoW=bool(fpow), fCheckMerkleRoot=bool(fmerkle), cur_time=cur_time)
         blk = make_block(bv[0], bv[1])
+        if (cur_time + len(bv[1])) % 2 == 0:
+            # Asking a script for its ACCURATE (BIP16) sigop count is an observation without effect; the
+            # block checks count the LEGACY way.  Doing it first on half of the blocks exposes any memo of
+            # the count that forgets which way it was asked (seeded change C16-17)
+            for t in blk.vtx:
+                for s_ in [i.scriptSig for i in t.vin] + [o.scriptPubKey for o in t.vout]:
+                    try:
+                        s_.GetSigOpCount(True)
+                    except Exception:  # noqa
+                        pass
         r = observe(chain, lambda: CheckBlock(blk, **kw))
         # second path: the same block parsed from its reference encoding (only when every
         # transaction has inputs - a zero-input transaction has no unambiguous encoding)
